@@ -155,11 +155,14 @@ Definition include_target (raw : string) : option string :=
 Definition bytes_target (raw : string) : option string :=
   match split_ws raw with [_; p] => Some p | _ => None end.
 
-(* lookup(path, dirs): first directory (in order) in which join(dir, path) exists *)
+(* os.path.isfile *)
+Definition fs_isfile (fs : fsys) (cwd p : string) : bool :=
+  match fs_read fs cwd p with Some _ => true | None => false end.
+(* lookup(path, dirs): first directory (in order) in which join(dir, path) is a FILE (a directory of that name is skipped) *)
 Fixpoint lookup (fs : fsys) (cwd rel : string) (dirs : list string) : option string :=
   match dirs with
   | [] => None
-  | d :: r => let p := join_path d rel in if fs_exists fs cwd p then Some p else lookup fs cwd rel r
+  | d :: r => let p := join_path d rel in if fs_isfile fs cwd p then Some p else lookup fs cwd rel r
   end.
 
 (* the loop over the numbered raw lines of one file; [rec] reads an included file completely *)
